@@ -3185,7 +3185,7 @@ def formrbe3(uset, GRID_dep, DOF_dep, Ind_List, UM_List=None):
     # current independent set:
     ipv_m = locate.mat_intersect(idof, mdof, 2)[0]
 
-    if not np.any(ipv_m):
+    if ipv_m.size == 0:
         # already done, except reordering:
         rbe3 = rbe3[dpv_m]
         # rearrange columns to uset order:
